@@ -124,6 +124,16 @@ def tree_equal(a, b):
     return ta == tb and all(x.shape == y.shape and bool(jnp.all(x == y)) for x, y in zip(la, lb))
 
 
+_CONST = jnp.asarray([10.0, 20.0, 30.0], dtype=jnp.float32)
+
+
+def _closure_keyful(key, mu, sample_shape=()):
+    return mu + jnp.sum(_CONST) + jax.random.normal(key, tuple(sample_shape) + jnp.shape(mu))
+
+
+CLOSURE_SAMPLER = wrap_sampler(_closure_keyful, name="closure")
+
+
 def flag_case(rng):
     r = rng.random()
     n = rng.choice([2, 3])
@@ -175,10 +185,17 @@ def flag_case(rng):
             c["ok"] = tree_equal(got, want)
         else:
             # real sampler: one independent draw per lane, never one draw broadcast
-            mode = rng.choice(["axis_size", "mapped", "mapped_ax1"])
+            mode = rng.choice(["axis_size", "mapped", "mapped_ax1", "closure_mapped", "closure_axis_size"])
             c["what"] = f"real:{mode}"
             k = jax.random.key(rng.randrange(10 ** 6))
-            if mode == "axis_size":
+            if mode.startswith("closure"):
+                # a sampler that closes over an array constant (staged as a constant of the site)
+                out = (seed(modular_vmap(lambda m: CLOSURE_SAMPLER(m), in_axes=(0,)))(k, jnp.zeros(4)) if mode == "closure_mapped"
+                       else seed(modular_vmap(lambda: CLOSURE_SAMPLER(0.0), axis_size=4))(k))
+                o0 = np.asarray(out)
+                if not (o0.shape == (4,) and bool(np.all(o0 > 50.0))):      # the constant's sum is 60
+                    raise ValueError(f"closure constant not applied: {o0.tolist()}")
+            elif mode == "axis_size":
                 out = seed(modular_vmap(lambda m: normal.sample(m, 1.0), in_axes=(None,), axis_size=4))(k, 0.0)
             elif mode == "mapped":
                 out = seed(modular_vmap(lambda m: normal.sample(m, 1.0), in_axes=(0,)))(k, jnp.zeros(4))
